@@ -506,7 +506,27 @@ static void enum_c09(Runner &run, int shard, int nshards, const std::string &tie
       }
     }
 }
-static void enum_c09_(Runner &run, int s, int n, const std::string &tier) { enum_c09(run, s, n, tier, "C09"); }
+// a compile with hundreds of definitions: indices beyond 8 bits, long priority bins. The fillers never match.
+static void many_definitions(Runner &run, int shard, int nshards, const std::string &fam) {
+  int k = 0;
+  for (int fillers : {254, 257, 300})
+    for (size_t f = 0; f < 2; f++, k++) {
+      if (k % nshards != shard) continue;
+      std::string s;
+      for (int i = 0; i < fillers; i++) s += "DEFINE PRIO " + std::to_string(i % 3 ? 5 : 9) + " QF" + std::to_string(i) + " <ID> AS zz END DEFINE\n";
+      s += FAMILIES[f];
+      s += "A x ! A A x ; x ! 1 QF3";
+      Result r;
+      run.journal_case(case_json(one_file(s), 4));
+      judge_run(one_file(s), 4, r, fam);
+      r.cls("enum:many-definitions");
+      run.record(r);
+    }
+}
+static void enum_c09_(Runner &run, int s, int n, const std::string &tier) {
+  enum_c09(run, s, n, tier, "C09");
+  many_definitions(run, s, n, "C09");
+}
 static void json_c09(const J &c, Result &r) { judge_run(files_of(c), (int)c.at("budget").i(), r, "C09"); }
 static Reg reg_c09({"C09", 300, prop_c09, enum_c09_, json_c09});
 
@@ -822,8 +842,13 @@ static void judge_patterns(const std::vector<std::string> &patterns, Result &r, 
   if (!r.ok || r.harness_error) return;
   for (size_t i = 0; i < patterns.size(); i++) {
     if (v.impl_rejected[i] != v.ref_conflict[i]) {
+      // keep the whole batch: one apply_macros call judged it, and the verdict on one pattern must not depend on
+      // the other definitions of the call - if it does, only the batch reproduces the failure
       J j = J::obj();
-      j.set("patterns", J::arr().push(patterns[i]));
+      J a = J::arr();
+      for (auto &pp : patterns) a.push(pp);
+      j.set("patterns", a);
+      j.set("failing_pattern", patterns[i]);
       r.sample = j;
       r.fail(v.impl_rejected[i] ? "nonlr:deterministic-pattern-rejected" : "nonlr:ambiguous-pattern-accepted",
              "pattern [" + patterns[i] + "]: " +
@@ -837,7 +862,7 @@ static void judge_patterns(const std::vector<std::string> &patterns, Result &r, 
 
 static void enum_c12(Runner &run, int shard, int nshards, const std::string &tier) {
   int L = tier == "thorough" ? 4 : 3;
-  const int S = 13, BATCH = 40;
+  const int S = 13, BATCH = 120;  // one apply_macros call judges a whole batch: patterns must not influence one another
   std::vector<std::string> batch;
   unsigned long idx = 0, batchno = 0;
   auto flush = [&]() {
